@@ -110,4 +110,49 @@ theorem inv_run (s : St) (ops : List Op) (h : Inv s) : Inv (run s ops) := by
   | nil => exact h
   | cons op ops ih => exact ih _ (inv_step s op h)
 
+/-- the list stands for a `HashMap`: one entry per connection id -/
+def Keyed (d : List (Conn × Nat)) : Prop := (d.map Prod.fst).Nodup
+
+theorem keyed_filter (d : List (Conn × Nat)) (p : Conn × Nat → Bool) (h : Keyed d) : Keyed (d.filter p) := by
+  unfold Keyed at *
+  exact List.Nodup.sublist (List.Sublist.map _ List.filter_sublist) h
+
+theorem keyed_put (d : List (Conn × Nat)) (c : Conn) (t : Nat) (h : Keyed d) : Keyed (put d c t) := by
+  unfold Keyed put at *
+  rw [List.map_append, List.nodup_append]
+  refine ⟨List.Nodup.sublist (List.Sublist.map _ List.filter_sublist) h, by simp, ?_⟩
+  intro a ha b hb
+  simp only [List.map_cons, List.map_nil, List.mem_singleton] at hb
+  subst hb
+  obtain ⟨e, he, rfl⟩ := List.mem_map.1 ha
+  have := (List.mem_filter.1 he).2
+  simpa using this
+
+theorem keyed_foldl_put : ∀ (rearm : List (Conn × Nat)) (d : List (Conn × Nat)), Keyed d →
+    Keyed (rearm.foldl (fun d x => put d x.1 x.2) d)
+  | [], _, h => h
+  | r :: rs, d, h => by
+    simp only [List.foldl_cons]
+    exact keyed_foldl_put rs _ (keyed_put d r.1 r.2 h)
+
+theorem keyed_step (s : St) (op : Op) (h : Keyed s.deadlines) : Keyed (step s op).deadlines := by
+  cases op with
+  | arm c t => exact keyed_put _ _ _ h
+  | remove c => exact keyed_filter _ _ h
+  | tick now rearm => exact keyed_foldl_put _ _ (keyed_filter _ _ h)
+
+theorem keyed_run (s : St) (ops : List Op) (h : Keyed s.deadlines) : Keyed (run s ops).deadlines := by
+  induction ops generalizing s with
+  | nil => exact h
+  | cons op ops ih => exact ih _ (keyed_step s op h)
+
+/-- after `arm c t` the connection's (only) deadline is `t` -/
+theorem mem_put_self (d : List (Conn × Nat)) (c : Conn) (t : Nat) : (c, t) ∈ put d c t := by
+  simp [put]
+
+theorem put_key_unique (d : List (Conn × Nat)) (c : Conn) (t u : Nat) (h : (c, u) ∈ put d c t) : u = t := by
+  rcases mem_put h with ⟨_, hne⟩ | heq
+  · exact absurd rfl hne
+  · exact (Prod.mk.inj heq).2
+
 end TT.QuicTimers
